@@ -343,3 +343,14 @@ Definition fl_ok_b (t : string) : bool :=
   | c :: r => Ascii.eqb c LP && match rev r with e :: _ => Ascii.eqb e RP | [] => false end
   | [] => false
   end && forallb inner_char (inner_of t) && match fl_tokens t with h :: _ => name_start h | [] => false end.
+
+(* the trees sympy builds: no empty product, no zero exponent.  Hypothesis of the value half of C13_glue (Proofs/C13_Glue.v);
+   checked by the correspondence on every tree the library handed to convert_expr_to_pddl in a run (Corr/C13.v, CGlue) *)
+Fixpoint wf_tree (t : stree) : bool :=
+  match t with
+  | SAdd args => forallb wf_tree args
+  | SMul args => negb (match args with [] => true | _ => false end) && forallb wf_tree args
+  | SPow b (SInt z) => negb (Z.eqb z 0) && wf_tree b
+  | SPow b _ => wf_tree b
+  | _ => true
+  end.
